@@ -34,7 +34,7 @@ import odml                                                     # noqa: E402  (a
 from odml.tools import xmlparser as xp                           # noqa: E402
 from odml.tools.odmlparser import ODMLReader, ODMLWriter          # noqa: E402
 
-WORKDIR = os.path.join(h.WORK, 'c0102')
+WORKDIR = os.path.join(h.WORK, 'c0102-%d' % os.getpid())     # per process: concurrent runs do not share files
 
 # ---------------------------------------------------------------------------------------------
 # odML 1.1 vocabulary (element names allowed below each container), written down from the format
